@@ -217,6 +217,48 @@ def run(ctx):
                 ctx.check(ok, "R16.2", prune.short, f"gate-measure:{fld}", message=msg,
                           how="len(<COMPLETE trials of the study>)" if kind == "complete-count" else "trial.last_step", where=where(prune, t.ast))
         ctx.require(n_meas > 0, f"R16.2: no comparison against self.{fld} found in {cls.name}.prune gates")
+    # the patience window is the last `patience + 1` *reports*, whatever their step numbers: both slices of the sorted
+    # steps cut at index -(patience + 1)
+    pcls = p.cls(PR + "_patient.PatientPruner")
+    pf = pcls.methods["prune"]
+    pdefs = single_defs(pf.node)
+    cuts = []
+    for x in own_nodes(pf.node):
+        if isinstance(x, ast.Subscript) and isinstance(x.slice, ast.Slice):
+            for b in (x.slice.lower, x.slice.upper):
+                if b is None:
+                    continue
+                rb = resolve(b, pdefs, depth=4)
+                if "self._patience" in norm(rb):
+                    cuts.append((x, rb))
+    ctx.require(len(cuts) >= 2, "R16.2: PatientPruner.prune no longer slices the reported steps at the patience boundary")
+    for x, rb in cuts:
+        txt = norm(rb).replace(" ", "")
+        ok = txt in ("-self._patience-1", "-(self._patience+1)", "-(1+self._patience)", "-1-self._patience")
+        ctx.check(ok, "R16.2", pf.short, f"patience-window-counts-reports:{norm(x)[:40]}",
+                  message=f"PatientPruner.prune cuts the reported steps at `{norm(rb)[:60]}`, not at index -(patience + 1): the window is no longer the last patience+1 reports "
+                          f"(a trial reporting with gaps between its steps is pruned inside its patience window)",
+                  how="slice bound is -(self._patience + 1)", where=where(pf, x))
+    # pruner objects keep nothing about the study they were first used with, apart from the tabled lazily computed
+    # configuration: a pruner instance may serve several studies (Hyperband shares its SuccessiveHalving pruners)
+    LAZY_CONFIG = {
+        PR + "_successive_halving.SuccessiveHalvingPruner": {"_min_resource"},  # min_resource="auto": documented, estimated once
+        PR + "_hyperband.HyperbandPruner": {"_pruners", "_n_brackets", "_total_trial_allocation_budget", "_trial_allocation_budgets", "_max_resource"},
+    }
+    from sa.util import field_accesses
+    base_pr = p.cls(PR + "_base.BasePruner")
+    for c in p.subclasses(base_pr):
+        if not c.module.name.startswith("optuna.pruners"):
+            continue
+        for mname, m in sorted(c.methods.items()):
+            if mname == "__init__":
+                continue
+            for a in field_accesses(m.node):
+                if a.kind in ("write", "mutate") and a.field not in LAZY_CONFIG.get(c.qualname, set()):
+                    ctx.fail("R16.2", m.short, f"pruner-keeps-no-study-state:{a.field}",
+                             f"{c.name}.{mname} writes self.{a.field}: a value remembered from one call (one study) decides later calls - a pruner object used for a second "
+                             f"study (other direction, other history) prunes what its contract protects", where=where(m, a.node))
+    ctx.ok("R16.2", "optuna/pruners", "pruner-keeps-no-study-state", how="no field writes outside __init__ except the tabled lazy configuration", nontrivial=False)
     # subclasses that only forward constructor arguments
     for q, baseq in INHERITING.items():
         cls, base = p.cls(q), p.cls(baseq)
